@@ -57,11 +57,25 @@ def floors(tier):
     return f
 
 
-def richardson(f, h):
-    """4th-order central difference from f(+h), f(-h), f(+h/2), f(-h/2)."""
+class FDUnreliable(Exception):
+    """The finite-difference oracle does not agree with itself at two step sizes (a rate oscillating fast in a parameter, e.g.
+    cos(2*pi*t/period) at t >> period): it decides nothing there."""
+
+
+def _richardson(f, h):
     d1 = (f(h) - f(-h)) / (2 * h)
     d2 = (f(h / 2) - f(-h / 2)) / h
     return (4 * d2 - d1) / 3
+
+
+def richardson(f, h):
+    """4th-order central difference from f(+h), f(-h), f(+h/2), f(-h/2); self-validated against the same formula at h/4."""
+    a = np.asarray(_richardson(f, h), dtype=float)
+    b = np.asarray(_richardson(f, h / 4), dtype=float)
+    sc = 1.0 + float(np.max(np.abs(b))) if b.size else 1.0
+    if a.size and not np.all(np.abs(a - b) <= 2e-6 * sc):
+        raise FDUnreliable()
+    return b
 
 
 def compare(m, spec, rng, counters, bad, evals=EVALS, n_points=2, fd=True):
@@ -184,6 +198,10 @@ def compare(m, spec, rng, counters, bad, evals=EVALS, n_points=2, fd=True):
                         sc = 1.0 + float(np.max(np.abs(GJ)))
                         if not np.all(np.abs(vals["grad_jacobian"] - GJ) <= 1e-5 * sc):
                             bad("grad_jacobian(x,t) disagrees with finite differences of grad(x,t)", got=vals["grad_jacobian"].tolist(), fd=GJ.tolist(), x=x, t=t, theta=th)
+            except FDUnreliable:
+                counters["fd_oracle_unreliable_points"] = counters.get("fd_oracle_unreliable_points", 0) + 1
+                if nP:
+                    m.parameters = list(th)
             except Exception as e:
                 bad("finite-difference probe of ode/jacobian/grad raised", error=short_exc(e), tb=tb_tail(e))
     return ref
